@@ -122,7 +122,8 @@ def _run(tier, seed, replay=None):
         "unit kinds driven: local command units (bash payload on stdin), remote units between two real daemons (even-numbered histories), and one in-process unit type "
         "(a Go WorkUnit on BaseWorkUnit registered by harness/cmd/receptor-inproc, odd-numbered histories); kubernetes/python units are not driven",
         "'release removes' is also checked some time after the answer, for never-started remote units, and with an undeletable status file (chattr +i); list-all is raced against releases",
-        "reported-status monotonicity is checked per client session (answers of different sessions are not ordered against each other)",
+        "reported-status monotonicity is checked per client session in the histories, and across ALL sessions in real-time order (answer received before another request was sent) "
+        "in the poll-storm scenario (6 sessions polling one in-process / command unit back to back during progress, completion and cancel)",
         "CancelStops is decided on the runner pid and the payload pid (direct child of the runner); grandchildren of the payload are outside the statement",
         "WorkUnitTrace.tla validates the stream of status rewrites (sf_apply: continuity, each rewrite is one of WorkUnit's updates, step properties); StatusFileTrace.tla the lock discipline; "
         "the other life-cycle events (mkdir, ack, spawn, cancel stages, release) are checked by Go oracles, not bound to WorkUnit actions by TLC",
